@@ -1,123 +1,165 @@
 """Configuration of ./check for C16 (see tools/props.py)."""
 ENTRY = {'coq_dir': 'C16',
- 'coq_deps': ['C15', 'C14', 'C17'],
+ 'coq_deps': ['C15', 'C14', 'C17', 'Ts'],
  'harness': 'c16',
- 'cases': {'quick': 6000, 'thorough': 200000},
+ 'cases': {'quick': 6000, 'thorough': 160000},
  'consts': ['PARALLELISM_FACTOR', 'REPLICATION_FACTOR', 'KAD_READ_TIMEOUT_SECS', 'KAD_WRITE_TIMEOUT_SECS'],
  'nontrivial_min_trace': 60,
- 'rule': 'the REAL `Kademlia::run` loop (polled by hand, tokio time paused) on a real TransportService fed through its event channel, a '
-         'real TransportManager handle whose peer table decides the results of dial(), in-memory substream carriers, the real '
-         'KademliaHandle as the user. Stream 1: the 17 corpus witnesses (the five repaired defects F-C16a..e in seven shapes; a silent '
-         'peer ended by the 15 s read timeout and a peer that never takes the PUT_VALUE frame ended by the write timeout; a connection '
-         "closed while a request is outstanding; provider refresh fired by the store's timer; two refresh timers for one key, "
-         'stop_providing, timers firing without effect; requests of a remote peer served while user operations are in flight; Manual '
-         'validation of incoming records + store_record; Manual routing-table updates + add_known_peer; the loop parked on a one-slot '
-         'event channel; five pending peers at once under a zero peer timeout). Stream 2: N seeded adaptive histories on 2-7 peers, '
-         'replication factor in {1,2,3,20}: 1-3 (quick) / 1-5 (thorough) user operations of every kind (find_node, put_record, '
-         'put_record_to_peers incl. unknown / local / duplicate peers, get_record with and without a local record, start_providing, '
-         'get_providers, provider refresh) with quorums One / N(1-4) / All, running concurrently; per peer the manager believes no-address '
-         '/ dialable / connected / dialing; the environment answers every dial (established with a live or an already dead connection '
-         'task, or dial failure), every substream (opened or open failure) and plays the SUBSTREAM of every executor future: the write '
-         'side accepts the frame / fails / blocks for ever, the read side delivers a message (fitting reply with random closer peers / '
-         'records / providers, wrong message type, undecodable bytes, ADD_PROVIDER as a reply, PUT_VALUE ack) / ends / stays silent - the '
-         'case records the behaviour, the QueryResult is computed by the executor model (Exec.v) from the kind of the future; a blocking '
-         'or silent substream is resolved by advancing the paused clock 16 s (only with that one future in flight). All in random order, '
-         "interleaved with unsolicited connections, closures, dying connection tasks, changes of the manager's belief, inbound substreams "
-         'with requests of every type, and stale / unknown substream, dial and future events; 88% of the histories end with the '
-         'environment discharging everything it still owes. Of every ten histories: four run against the COMPOSED model (commands are '
-         'user-level: seeds, distance ranks, known peers of put_record_to_peers and the local-record flag are computed by the model from '
-         'its own routing table (C14 model, real SHA-256 keys) and store (C17 model); add_known_peer / store_record / stop_providing '
-         'commands; a request read from an inbound substream is about a record key (FIND_NODE / PUT_VALUE / GET_VALUE / GET_PROVIDERS / '
-         'ADD_PROVIDER) and the reply the node writes - record attached or not, closer peers in order - is captured from the carrier and '
-         "compared with the model's; the store's refresh timers are fired one at a time by advancing the clock to the earliest deadline; "
-         'one composed history in four runs with RoutingTableUpdateMode::Manual, one in four with IncomingRecordValidationMode::Manual; '
-         'compared after every event: the dumps of all non-empty k-buckets (peer, has-address, connection state, in bucket order), the '
-         'stored record keys, the local provider keys and the number of armed refresh timers), two run on an event channel of 1-3 slots '
-         '(the user receives at random moments; compared: what the user received, whether the loop is parked, the dump when it is not), '
-         'two run with a zero peer timeout. One harness event = one `select!` event = one poll of the loop; after each, the emitted '
-         'KademliaEvents (in order), the send-phase target lists and a dump of pending_dials, peers[..].pending_actions, '
-         'pending_substreams, executor length and every live query (lookup sets / tracking context) are compared with the extracted Coq '
-         'model, which replays the same events with the served-query order (and, outside the composed mode, the seed candidates and '
-         'XOR-distance ranks) observed on the implementation. Stream 3: three put_record_to_peers operations between real nodes over '
-         "loopback TCP (F-C16a end to end, deadline-bounded). prop_ok re-judges the property text on the implementation's trace alone: at "
-         'most one terminal event per operation and none for unknown ids (a refresh counts as an operation when the user provides the key: '
-         'start_providing not followed by stop_providing); when the environment owes nothing any more every started operation has exactly '
-         'one terminal event; a PutRecordSuccess / AddProviderSuccess needs PUT_VALUE / ADD_PROVIDER futures whose WRITE side accepted the '
-         'frame, to at least clamp(quorum, |targets|) distinct target peers; bounded time: after the environment has let 16 s pass with a '
-         'future in flight, fewer futures are in flight; in composed mode the targets of put_record_to_peers are peers the caller named; '
-         'on a bounded channel the same is judged on what the user received. Non-trivial: trace >= 60 numbers; distinct (case, trace) '
-         'pairs are counted.',
- 'level_text': 'Proof: for every configuration with parallelism factor >= 1 (any replication factor, any peer timeout), every initial '
-               'manager belief and EVERY event history (commands, any order in which the drain loop serves the queries, connection / '
-               'substream / dial events, executor completions with arbitrary messages, requests of remote peers, environment changes, time '
-               'passing) the model of the repaired code keeps the invariant "nobody waits for nothing": each peer a live query waits for '
-               'has EXACTLY ONE outstanding obligation of that query and of the matching kind in pending_dials, pending_actions or the '
-               'executor (C16_no_wait_for_nothing / _at_most_one / _exactly_one); every pending action is reachable through '
-               'pending_substreams; when nothing is owed and the engine is drained no query is left, and with ids from a counter every '
-               'started operation has produced exactly one terminal event with its id, never two (C16_one_terminal / _terminates). '
-               "Termination with an explicit bound: C15's lookup measure lifted to a global measure M (C16_step_measure), a stuck state is "
-               'idle and drained (C16_stuck_idle), every fair schedule without new work has at most B = sum of (10 n + 5 k + 2) per '
-               'command, (5 |peers| + 2) per put_record_to_peers, 2 per inbound substream productive events and ends with one terminal '
-               'event per operation (C16_fair_terminates). BOUNDED TIME (new): obligations carry their time of birth; in a schedule where '
-               'the clock never passes D beyond the birth of an outstanding obligation and time passes only while the loop waits, the '
-               'event after k productive ones happens at most D (k + 1) after the start, hence every terminal event within D * B '
-               "(C16_bounded_time / _bounded_time_budget); for the executor's futures D is not an assumption: the five kinds of futures "
-               'are modelled with their write / read phases and timers against every behaviour of the substream (Exec.v) - the result is '
-               "always one the loop's model accepts and every accepted result occurs (C16_executor_sound / _complete), no future lives "
-               'longer than WRITE_TIMEOUT + READ_TIMEOUT (C16_executor_bounded), a silent peer ends in the failure path exactly '
-               'READ_TIMEOUT after the write (C16_executor_silent_peer), and a send-phase completion counts as sent exactly when the frame '
-               'was written (C16_executor_sent). Quorum honesty at full strength (C16_quorum_honest). Await points on a full event channel '
-               '(C16_bounded_channel / _channel_drains). Requests of remote peers served by the same loop (new): inbound traffic neither '
-               'starts, ends nor touches a user operation - engine, pending_dials, pending_substreams, every pending action and every '
-               'query future are unchanged, only IncomingRecord / IncomingProvider are emitted (C16_inbound_isolated; a FAILED inbound '
-               'future runs disconnect_peer like any other and is covered by the general theorems). The COMPOSITION with the routing table '
-               "(C14 model) and the store (C17 model): refinement (C16_compose_refines), C14's table invariant under everything the loop "
-               "does, disconnect_peer being C14's ODisconnected operation (C16_table_invariant), seeds = RoutingTable::closest "
-               '(C16_seeds_from_table), put_record_to_peers targets named peers only (C16_put_to_peers_named), GetRecord and the local '
-               'store (C16_get_record_local / _put_then_get); the reply to an inbound FIND_NODE / GET_VALUE / GET_PROVIDERS is closest() '
-               'of the current table - never the local peer, at most k - with the record exactly when the store has it, and a stored '
-               'record is served to every later GET_VALUE (C16_inbound_reply / _serve_after_put); IncomingRecordValidationMode::Manual: no '
-               'event of the loop writes the store, Automatic: the record is stored when the request is read (C16_manual_validation / '
-               '_auto_validation); RoutingTableUpdateMode::Manual: after every history every peer in the table was put there by '
-               "add_known_peer (C16_manual_routing_table); the store's refresh timers: a firing timer starts a refresh exactly when the "
-               "last start_providing of the key has not been followed by stop_providing, with that call's quorum, and re-arms; a provided "
-               'key always has a timer (C16_refresh_due / _provided_has_timer); side conditions hold by construction and the glue theorems '
-               'are restated for composed histories incl. fair termination over the key table as peer universe (C16_compose_cmds_ok / '
-               '_no_wait / _one_terminal / _terminates / _fair_terminates / _at_most_one / _quorum_honest). The lookups inside the engine '
-               'are the C15 model.',
- 'level_note': 'Liveness is relative to the environment discharging its obligations: dial -> Established | DialFailure and open -> Opened '
-               "| OpenFailure are C05 / C08 guarantees taken as given (the D of C16_bounded_time for them is the transport layer's); for "
-               'executor futures the bound is proved on the executor model and exercised with the paused clock. There is no query '
-               'cancellation API in the crate. In the composed model records carry one logical ttl and the store clock stands still '
-               "(record expiry is C17's subject); provider RECORDS of the store (known providers handed to get_providers, the add_provider "
-               "side of an inbound ADD_PROVIDER, GET_PROVIDERS replies' provider lists) stay inputs / unmodelled - only the local-provider "
-               'bookkeeping (keys, quorums, timers) is modelled, assuming put_provider accepts the local provider (capacity of 10000 '
-               'provider keys is not reached). Refresh timers are a multiset without deadlines: which armed timer fires next is an input. '
-               'The harness exercises staleness at the two extremes (timeout unreachable / zero), the theorems cover every timeout. Full '
-               'buckets are reached by the F-C16e witness only (the generator uses 10 peers).',
- 'trusted_base': ['the cfg(verif) probe inside `Kademlia::run` (two add-only statements: one log entry per engine action, one snapshot '
-                  'when the loop is about to wait; the snapshot reads the glue maps, the engine, the k-buckets, the store keys, the local '
-                  'provider keys and the number of armed refresh timers) and the public wrapper around the crate-private Kademlia object',
-                  'HashMap iteration order of the engine enters the model as an input recorded from the implementation (served-query '
-                  'events); outside the composed mode so do routing-table answers and SHA-256 distance ranks (seeds, dists). The model '
-                  'validates every served query (it must have an action) and that the engine is drained before each select! event. In '
-                  "composed mode the peers' and record keys' SHA-256 hashes are data of the case (computed by the crate's Key::from / "
-                  'Key::new)',
-                  'dial() results are forced through the real TransportManagerHandle peer table (verif_force_peer), open_substream results '
-                  'through the real connection handle (dropped receiver); carriers are in-memory AsyncRead/AsyncWrite objects (write '
-                  'accepted / failing / blocking, or taken-but-not-flushed so that a reply can be read before its future completes)',
-                  'tokio paused clock for the executor timeouts (advance 16 s with exactly one future in flight and no refresh timer due) '
-                  'and the refresh timers (advance to the earliest deadline; deadlines are kept >= 3 ms apart); '
-                  'ConfigBuilder::verif_build_bounded for an event channel of 1-3 slots; QueryEngine::verif_force_peer_timeout(0) for the '
-                  'staleness stream (std::time::Instant cannot be paused)'],
- 'assumptions': ['parallelism factor >= 1 (shipped: 3)',
-                 'query ids are fresh per command (KademliaHandle and the refresh handler draw them from one atomic counter)',
-                 'the routing table never returns the local peer and put_record_to_peers is not given one peer twice (`cmd_ok`; a THEOREM '
-                 'for composed histories: C16_compose_cmds_ok needs only that the caller names no peer twice)',
-                 'the service reports SubstreamOpened for the peer the substream was requested from (C08)',
-                 'every obligation is eventually discharged by the environment: a queued dial by ConnectionEstablished or DialFailure '
-                 '(C05; see F-C05c for a manager path that stays silent), an open by Opened/OpenFailure (C08); executor futures by their '
-                 'own timers (proved: C16_executor_bounded)',
-                 'composed model: every peer label has one 256-bit key and distinct peers have distinct keys (`keys_ok`; SHA-256 '
-                 'collisions aside)',
-                 "inbound substream ids are distinct from the service's substream counter (harness numbering)"]}
+ 'rule': 'the REAL `Kademlia::run` loop (polled by hand, tokio time paused) on a real TransportService fed through its event channel, a real '
+         'TransportManager handle whose peer table decides the results of dial(), in-memory substream carriers, the real KademliaHandle as the user. '
+         'Stream 1: the 24 corpus witnesses (the five repaired defects F-C16a..e in seven shapes; executor read / write timeouts; a connection '
+         'closed while a request is outstanding; provider refresh; two refresh futures for one key, stop_providing, futures completing without '
+         'effect; requests of a remote peer served while user operations are in flight; Manual validation + store_record; Manual routing-table '
+         'updates + add_known_peer; the loop parked on a one-slot event channel; stale pending peers; NEW: record expiry seen by a local get_record '
+         "and a remote GET_VALUE; an inbound ADD_PROVIDER stored, served to GET_PROVIDERS, handed to the node's own get_providers and gone after the "
+         'provider ttl; put_record_to_peers with and without update_local_store and with a record the store refuses; a try_ method on a full command '
+         'channel; an async method waiting for its slot; the id of a refresh drawn from the counter the handle uses; calls after the loop has '
+         'ended). Stream 2: N seeded adaptive histories on 2-7 peers, replication factor in {1,2,3,20}: 1-3 (quick) / 1-5 (thorough) user operations '
+         'of every kind with quorums One / N(1-4) / All (N larger than the number of targets included), running concurrently; per peer the manager '
+         'believes no-address / dialable / connected / dialing; the environment answers every dial, every substream and plays the SUBSTREAM of every '
+         'executor future (write side accepts / fails / blocks, read side delivers a fitting reply / a wrong message / undecodable bytes / ends / '
+         'stays silent; a blocking or silent substream is resolved by letting 20 s pass) - in random order, interleaved with unsolicited '
+         "connections, closures, dying connection tasks, changes of the manager's belief, inbound substreams with requests of every type, and stale "
+         '/ unknown substream, dial and future events; 88% of the histories end with the environment discharging everything it still owes. Of every '
+         'ten histories four run against the COMPOSED model: commands are user-level (put_record with value length 1-4 where 4 is refused by the '
+         'store, expiry none / at once / 2 / 39 / 399 ticks; put_record_to_peers with publisher, expiry and update_local_store either way; '
+         'store_record; start_providing / stop_providing / get_providers on few provider keys); seeds, distance ranks, known providers and the '
+         'local-record flag are computed by the model from its routing table (C14 model, real SHA-256 keys) and its store - the C17 model with clock '
+         'readings, stored quorums and refresh futures with deadlines; requests read from inbound substreams are about record keys: PUT_VALUE with '
+         'length / publisher (also bytes that are no peer id) / wire ttl, GET_VALUE, GET_PROVIDERS, ADD_PROVIDER with a provider list (the sender '
+         'with 0-3 addresses, a third party, two entries, none, an undecodable peer id, an unknown connection type); the reply the node writes - '
+         'record attached or not, closer peers in order, providers with their number of addresses - is captured from the carrier and compared; time '
+         "passes explicitly (1-310 ticks of 10 s: the store is aged through the cfg(verif) hook, tokio's clock advanced) and inside refresh firings "
+         '(to the deadline of the earliest future) and executor timeouts; compared after every event: the dumps of all non-empty k-buckets, every '
+         'record of the store (key, value, publisher, length, expiry relative to the clock), every provider record per key in stored order (peer, '
+         'addresses, expiry), local_providers with the stored quorum, the number of refresh futures; one composed history in four with '
+         'RoutingTableUpdateMode::Manual, one in four with IncomingRecordValidationMode::Manual; two of ten run on an event channel of 1-3 slots, '
+         'two with a zero peer timeout. One harness event = one `select!` event = one poll of the loop; after each, the emitted KademliaEvents (in '
+         'order), the send-phase target lists and a dump of pending_dials, peers[..].pending_actions, pending_substreams, executor length and every '
+         'live query are compared with the extracted Coq model. Stream 3: three put_record_to_peers operations between real nodes over loopback TCP. '
+         'Stream 4 (NEW, N/8 cases, harness/src/c16_handle.rs): the KademliaHandle in front of the real loop on a COMMAND channel of 1-3 slots (hook '
+         'verif_build_channels): the fifteen methods are called by name - the names come from the table tools/gen_c16_tables.py extracts from '
+         'handle.rs, a name without a call invalidates the stream - try_ variants meet a full channel (Err, the id is burnt), async variants stay '
+         'suspended in send().await (their future is kept and polled again), the loop takes every queued command per poll, refreshes draw ids from '
+         'the shared counter, the loop may end (closed channel); compared: the result of every call, the number of commands every poll takes, the '
+         "store after it, every event the user receives. prop_ok re-judges the property text on the implementation's trace alone: at most one "
+         'terminal event per operation and none for unknown ids (in stream 4: none for an id nobody was given - in particular the id of a failed '
+         'try_); when the environment owes nothing any more every started operation has exactly one terminal event; a PutRecordSuccess / '
+         'AddProviderSuccess needs PUT_VALUE / ADD_PROVIDER futures whose WRITE side accepted the frame, to at least clamp(quorum, |targets|) '
+         'distinct target peers (for a refresh: the quorum of the start_providing call); bounded time: after the environment has let 20 s pass with '
+         'a future in flight, fewer futures are in flight; in composed mode the targets of put_record_to_peers are peers the caller named; on a '
+         'bounded channel the same is judged on what the user received. Non-trivial: trace >= 60 numbers; distinct (case, trace) pairs are counted.',
+ 'level_text': 'Proof: for every configuration with parallelism factor >= 1, every initial manager belief and EVERY event history the model of the '
+               "repaired code keeps the invariant 'nobody waits for nothing': each peer a live query waits for has EXACTLY ONE outstanding "
+               'obligation of that query and of the matching kind in pending_dials, pending_actions or the executor (C16_no_wait_for_nothing / '
+               '_at_most_one / _exactly_one); every pending action is reachable through pending_substreams (C16_dischargeable); when nothing is owed '
+               'and the engine is drained no query is left, and with ids from a counter every started operation has produced exactly one terminal '
+               'event with its id, never two (C16_one_terminal / _terminates). Termination with an explicit bound (C16_step_measure, C16_stuck_idle, '
+               "C16_fair_terminates) and BOUNDED TIME (C16_bounded_time / _budget; the executor's futures with their timers: C16_executor_sound / "
+               '_complete / _bounded / _silent_peer / _sent). Quorum honesty at full strength (C16_quorum_honest) and NEW, variant by variant: the '
+               'command the loop performs for put_record, put_record_to_peers (either value of update_local_store), start_providing and the refresh '
+               're-announcement carries the quorum the user asked for / stored with the key (C16_quorum_variants); what clamp is for the three '
+               'variants of enum Quorum - extracted from the source, N carries a NonZeroUsize - incl. N larger than the number of targets and the '
+               'impossibility of N(0) (C16_quorum_clamp); a success needs at least one target that was sent the data (C16_success_needs_a_send); all '
+               'of it for histories through the handle without assumptions on ids or quorums (C16_handle_quorum_honest). Await points on a full '
+               'event channel (C16_bounded_channel / _channel_drains). Requests of remote peers (C16_inbound_isolated). NEW - ONE engine model: the '
+               "multi-query engine layer of the glue model refines C15's QueryEngine model call by call (starts of all kinds with the known "
+               'providers, register_response / _failure / send_success / send_failure / peer_failure, next_peer_action, next_action of the query the '
+               "HashMap order picked, on_query_action on the action C15's engine returns), and every reachable engine is a reachable C15 engine "
+               '(C16_engine_is_C15, _calls_refine, _starts_refine, _serve_refines). The COMPOSITION with the routing table (C14 model) and the store '
+               "- NEW: the C17 model with clock readings, stored quorums and refresh futures with deadlines, driven by C17's model of the loop "
+               "(kstep) for every event that has a counterpart: refinement (C16_compose_refines), C14's table invariant and C17's store invariant in "
+               'every reachable world (C16_table_invariant, C16_store_invariant), seeds = RoutingTable::closest (C16_seeds_from_table), '
+               'put_record_to_peers targets named peers only whatever the update_local_store flag (C16_put_to_peers_named), GetRecord answers '
+               'locally exactly when the store holds an UNEXPIRED record (C16_get_record_local, C16_store_records_live), a stored record is found / '
+               'served until it expires or is written again, time passing included (C16_put_then_get, C16_serve_after_put), the reply to an inbound '
+               'FIND_NODE / GET_VALUE / GET_PROVIDERS: closest() of the current table, the record flag, and the unexpired provider records of the '
+               'store in stored order (C16_inbound_reply), Manual / Automatic validation (C16_manual_validation, C16_auto_validation: expiry from '
+               'the wire ttl), Manual routing table (C16_manual_routing_table), the refresh futures: a completed future starts a refresh exactly '
+               'when the key is still in local_providers, with the stored quorum, never before its deadline, and re-arms; a provided key always has '
+               'a pending future (C16_refresh_due, _refresh_not_before_deadline, _refresh_rearms, _provided_has_timer); the glue theorems restated '
+               "for composed histories incl. fair termination and NEW bounded time (C16_compose_*). NEW - the user's side: KademliaHandle with its "
+               'bounded command channel: ids are drawn before the send from the counter the refresh branch shares, so the ids of the operations the '
+               'loop starts are fresh whatever the interleaving (C16_handle_ids_fresh: the assumption `ufresh` is discharged; '
+               'C16_handle_one_terminal); a try_ method on a full or closed channel returns Err, queues nothing, and its id is never started nor '
+               'reported (C16_handle_try_full); the channel is a queue (C16_handle_fifo); every command is the user event of the composed model '
+               'whose engine start is the one the source arm calls (C16_command_starts_in_sync); terminal events carry a query id, '
+               'RoutingTableUpdate / IncomingRecord / IncomingProvider carry none and are never terminal, GetRecordPartialResult is not terminal '
+               "(C16_events_classified); the tables extracted from handle.rs / mod.rs / executor.rs / target_peers.rs are the model's "
+               '(C16_tables_in_sync). NEW - the layers below: the assumption `feasible` of C16_dischargeable is a theorem of the TransportService '
+               'model of C08 / C09 (C16_link_service_feasible); both answers of the manager to a queued dial are productive (C16_link_dial_answers).',
+ 'level_note': 'Liveness is relative to the environment discharging its obligations within a bound D: for executor futures D is proved '
+               '(WRITE_TIMEOUT + READ_TIMEOUT, Exec.v) and exercised with the paused clock; for substream opens the ANSWER is linked formally to '
+               'coq/Ts (C16_link_service_feasible; C08_open_answered: exactly one answer unless the connection is reported closed), the deadline '
+               "behind it is the connection's / the keep-alive timeout of the service (C09_closes, C09_never_overdue), cited by name; for dials the "
+               "answers are C05's (C05_sys_progress, C05_sysT_progress, C05_tr_progress_dial, deadline: C05_tr_progress_open_expire), cited by name, "
+               "with the shape lemma C16_link_dial_answers. 'The requested quorum' is read with the clamp of PutToTargetPeersContext::new (a "
+               'deliberate, commented choice of the source: N(n) with fewer than n targets means every target): stated explicitly in '
+               'C16_quorum_clamp, not a finding. There is no query cancellation API. After the loop has ended the async methods of the handle still '
+               'return an id (the error of the closed channel is dropped; stale doc comments): modelled (h_closed), diffed, the oracle owes nothing '
+               'then - an observation, the node is shutting down. Not modelled: an ADD_PROVIDER message the store would accept arriving as a REPLY '
+               'on a request substream in composed mode (stored under a key the case does not describe; exercised in base mode where the store is '
+               'not modelled); ChannelClogged of open_substream / dial (same arms as the dead-task / dial-error results the harness produces). '
+               'C16_provided_has_timer needs `valid_run`: the store accepted the provider record of every refresh (it refuses only at its provider '
+               'capacity, C17). The harness exercises staleness at the two extremes (timeout unreachable / zero), the theorems cover every timeout. '
+               'Full buckets are reached by the F-C16e witness only. Store time is counted in ticks of 10 s: real time that elapses during a case '
+               '(milliseconds) cannot flip a comparison between whole ticks.',
+ 'trusted_base': ['the cfg(verif) probe inside `Kademlia::run` (two add-only statements: one log entry per engine action, one snapshot when the loop '
+                  'is about to wait; the snapshot reads the glue maps, the engine, the k-buckets and the whole store; the store-ageing request is '
+                  'applied there) and the public wrapper around the crate-private Kademlia object',
+                  'HashMap iteration order of the engine enters the model as an input recorded from the implementation (served-query events); '
+                  "outside the composed mode so do routing-table answers and SHA-256 distance ranks. In composed mode the peers' and record keys' "
+                  "SHA-256 hashes are data of the case (computed by the crate's Key::from / Key::new)",
+                  'dial() results are forced through the real TransportManagerHandle peer table (verif_force_peer), open_substream results through '
+                  'the real connection handle (dropped receiver); carriers are in-memory AsyncRead/AsyncWrite objects',
+                  "time: tokio's paused clock for executor timeouts and refresh futures; the store reads the real clock and is aged through "
+                  'MemoryStore::verif_age (requested on the probe, applied by the loop when it next waits; a command the store refuses makes the '
+                  'loop go round); ConfigBuilder::verif_build_bounded / verif_build_channels for event / command channels of 1-3 slots; '
+                  'QueryEngine::verif_force_peer_timeout(0) for the staleness stream',
+                  'tools/gen_c16_tables.py (regex-level reading of handle.rs, mod.rs, executor.rs, target_peers.rs; anything it cannot read is '
+                  'reported as missing) and the constants of the harness configuration that coq/C16/Glue.v repeats (tick, ttls, refresh interval, '
+                  'store limits)'],
+ 'assumptions': ['parallelism factor >= 1 (shipped: 3; C16_default_config)',
+                 'query ids are fresh per command: a THEOREM for every history through the KademliaHandle incl. the ids of refreshes '
+                 '(C16_handle_ids_fresh); still a hypothesis of the base theorems about arbitrary event lists',
+                 'the routing table never returns the local peer and put_record_to_peers is not given one peer twice (`cmd_ok`; a THEOREM for '
+                 'composed histories: C16_compose_cmds_ok needs only that the caller names no peer twice)',
+                 'the service reports SubstreamOpened for the peer the substream was requested from: a THEOREM of the TransportService model '
+                 '(C16_link_service_feasible)',
+                 'every obligation is eventually discharged by the environment: a queued dial by ConnectionEstablished or DialFailure (C05), an open '
+                 'by Opened / OpenFailure / ConnectionClosed (C08_open_answered, C09); executor futures by their own timers (proved: '
+                 'C16_executor_bounded)',
+                 'composed model: every peer label has one 256-bit key and distinct peers have distinct keys (`keys_ok`; SHA-256 collisions aside)',
+                 'C16_provided_has_timer: the schedule is consistent and the store accepted the provider record of every refresh (`valid_run`)',
+                 "inbound substream ids are distinct from the service's substream counter (harness numbering)"],
+ 'clause_map': [['each node lookup, record put (to the closest peers or to given peers), record get, provider announcement and provider lookup',
+                 'Model.v cmd / EPutToPeers; Compose.v ucmd / UPutToPeers / UFire; HandleModel.v hcmd, h2u (all nine KademliaCommand variants, '
+                 'fifteen handle methods); C16_command_starts_in_sync, C16_tables_in_sync (which engine start each command arm calls)',
+                 'streams 2 and 4; tables regenerated from handle.rs / mod.rs on every check'],
+                ['produces exactly one terminal event',
+                 'C16_one_terminal, C16_terminates, C16_fair_terminates, C16_compose_one_terminal / _terminates / _fair_terminates, '
+                 "C16_handle_one_terminal; engine level: C16_engine_serve_refines (the terminal events are C15's terminal actions)",
+                 'oracle prop_ok_u / prop_ok_b / prop_ok_h (count_terms <= 1; = 1 when nothing is owed); seeds seeded/C16, /b, /c'],
+                ['carrying its query id',
+                 'C16_handle_ids_fresh (ids fresh incl. refresh ids), C16_handle_fifo (the returned id is the id of the queued command), '
+                 'C16_events_classified (terminal events carry a query id; RoutingTableUpdate / IncomingRecord / IncomingProvider do not and are not '
+                 'terminal), C16_handle_try_full (a burnt id is never reported)',
+                 'stream 4 with raw query ids; oracle: no terminal event for an id nobody was given; mutations mC, mD, mG'],
+                ['success or failure',
+                 'term_of / out_event (Handle.v); tbl_action_events = on_query_action arms (C16_tables_in_sync)',
+                 'event encoding enc_out compared per event'],
+                ['within bounded time',
+                 'C16_bounded_time, C16_bounded_time_budget, C16_compose_bounded_time, C16_compose_bounded_time_budget, C16_executor_bounded, '
+                 'C16_executor_silent_peer; D for opens / dials: C09_closes, C09_never_overdue, C05_tr_progress_open_expire (cited)',
+                 'oracle `timely` (a future does not survive 20 s); witnesses silent_peer_times_out, write_timeout_put_value'],
+                ['including when some target peers cannot be dialed, have no usable address, disconnect midway or never answer',
+                 'C16_no_wait_for_nothing, C16_exactly_one, C16_dischargeable (+ C16_link_service_feasible), C16_closed_while_outstanding, '
+                 'C16_link_dial_answers, C16_executor_silent_peer',
+                 'stream 2 fault placement per peer; witnesses f_c16a..e, closed_while_request_outstanding'],
+                ['a put or announcement reports success only if the requested quorum of peers was actually sent the data',
+                 'C16_quorum_honest, C16_compose_quorum_honest, C16_handle_quorum_honest, C16_quorum_variants (PutRecord, PutRecordToPeers with '
+                 'either update_local_store, AddProvider, refresh), C16_quorum_clamp (One / N / All, N > targets, N(0) impossible), '
+                 'C16_success_needs_a_send, C16_executor_sent (sent = the write side accepted the frame), C16_engine_starts_refine (peers_to_succeed '
+                 "= C15's need_track)",
+                 "oracle `honest` (write-side acceptance read from the case, not from the implementation's result); table `need` / `quorum` "
+                 'extracted; mutations mA, mB']]}
